@@ -738,7 +738,9 @@ fn eval_c10(case: &WireCase) -> Eval {
         Source::Session { cut, .. } => cut.unwrap_or(enc.bytes.len()),
         _ => unreachable!(),
     };
-    let o = run_case(case, &m, 0);
+    // one further receive after the terminal outcome: a retrying caller must not be told that
+    // a stream which ended inside a response was closed cleanly
+    let o = run_case(case, &m, 1);
     let session = case_session(case);
     let mut ev = Eval {
         digest: outcome_digest(&o),
@@ -817,6 +819,19 @@ fn eval_c10(case: &WireCase) -> Eval {
         } else {
             Terminal::UnexpectedEof
         };
+        if !on_boundary && o.after.first() == Some(&Terminal::CleanEof) {
+            return Some(
+                Violation::new(
+                    "C10",
+                    "mid_response_eof_reported_clean_on_retry",
+                    format!(
+                        "cut at {} ({}) was reported as {:?}, but the next receive() reported a clean close although part of a response had been received",
+                        cut, region, o.terminal
+                    ),
+                )
+                .tag(format!("region={}", region)),
+            );
+        }
         if o.terminal != expected {
             return Some(
                 Violation::new(
@@ -984,7 +999,7 @@ impl Check for C10 {
         v
     }
     fn trace(&self, case: &WireCase) -> Vec<String> {
-        trace_case(case, 0)
+        trace_case(case, 1)
     }
     fn rule(&self) -> String {
         "crash point = end of stream at offset k; for every generated well-formed stream of at most \
